@@ -278,7 +278,7 @@ fn unquote(t: &str) -> Option<String> {
 #[derive(Clone, Debug, PartialEq)]
 pub enum Need {
     /// the value needs more bits than the parameter has
-    Narrow { letter: char, what: String },
+    Narrow { letter: String, what: String },
     /// register in a parameter documented as immediate-only: documented to WARN and store the id
     ImmReg,
     /// register whose mask bit does not exist (parameter index >= 16)
@@ -357,14 +357,14 @@ pub fn model_call(host: Host, ps: &[P], args: &[A], own_offset: u32, furi: &mut 
                 let w = if *arg0 { 2 } else { w0 };
                 let (v, reg) = match a { A::Int(v) => (*v, false), A::Reg(n) => (*n, true), _ => panic!("bad arg kind for int: {a:?}") };
                 if !fits(v as i64, w) {
-                    m.needs.push(Need::Narrow { letter: *letter, what: if reg { format!("reg{v}") } else { format!("{v}") } });
+                    m.needs.push(Need::Narrow { letter: if *arg0 { "arg0".to_string() } else { letter.to_string() }, what: if reg { "reg".to_string() } else { format!("{v}") } });
                 } else if !natural(v as i64, w, signed) { m.reinterp = true; }
                 if !reg && is_edge(v as i64, w) { m.edge = true; }
                 let stored = decode_int(v, w, if *arg0 { true } else { signed });
                 if *arg0 { m.extra = Some(v as u16 as i16 as i32); }
                 else { m.blob.extend(&v.to_le_bytes()[..w as usize]); }
                 if reg {
-                    if *arg0 { m.error = Some("language without registers"); }
+                    if *arg0 { m.error = Some("compile-time constant"); }
                     else if *imm { m.needs.push(Need::ImmReg); m.printed.push(Pr::Int(stored, en.clone())); }
                     else { set_mask(&mut m); m.printed.push(Pr::Reg(stored)); }
                 } else {
@@ -640,19 +640,25 @@ pub struct Acc {
     pub cases_done: u64,
     pub nontrivial: u64,
     pub planned: u64,
+    pub ctx: String,
+    pub by_ctx: BTreeMap<String, u64>,
     pub families: BTreeMap<String, (u64, u64)>,
     pub outcomes: BTreeMap<String, u64>,
     pub failures: Vec<Failure>,
     pub notes: BTreeMap<String, u64>,
 }
 impl Acc {
-    fn outcome(&mut self, k: &str) { *self.outcomes.entry(k.to_string()).or_insert(0) += 1; self.cases_done += 1; }
+    fn outcome(&mut self, k: &str) {
+        *self.outcomes.entry(k.to_string()).or_insert(0) += 1; self.cases_done += 1;
+        *self.by_ctx.entry(format!("{}:{}", self.ctx, k)).or_insert(0) += 1;
+    }
     fn note(&mut self, k: &str) { *self.notes.entry(k.to_string()).or_insert(0) += 1; }
     fn merge(&mut self, o: Acc) {
         self.evaluations += o.evaluations; self.traces += o.traces; self.cases_done += o.cases_done; self.nontrivial += o.nontrivial; self.planned += o.planned;
         for (k, v) in o.families { let e = self.families.entry(k).or_insert((0, 0)); e.0 += v.0; e.1 += v.1; }
         for (k, v) in o.outcomes { *self.outcomes.entry(k).or_insert(0) += v; }
         for (k, v) in o.notes { *self.notes.entry(k).or_insert(0) += v; }
+        for (k, v) in o.by_ctx { *self.by_ctx.entry(k).or_insert(0) += v; }
         self.failures.extend(o.failures);
     }
 }
@@ -660,7 +666,7 @@ impl Acc {
 struct BCall { case: usize, line: usize, opcode: u32, model: CallModel }
 struct Built { mapfile: String, source: String, calls: Vec<BCall>, sig_of_mapline: BTreeMap<usize, usize> }
 
-fn build(host: Host, sigs: &[Vec<P>], cases: &[Case], live: &[usize], corrupt: bool) -> Built {
+fn build(host: Host, sigs: &[Vec<P>], cases: &[Case], live: &[usize], corrupt: u8) -> Built {
     let mut mapfile = String::from(host.mapfile_head());
     let mut map_line = host.mapfile_head().matches('\n').count();
     let mut op_of_sig: BTreeMap<usize, u32> = BTreeMap::new();
@@ -685,7 +691,9 @@ fn build(host: Host, sigs: &[Vec<P>], cases: &[Case], live: &[usize], corrupt: b
             let label = format!("L{nlabel}");
             if args.iter().any(|a| matches!(a, A::LabOff | A::LabTime)) { source.push_str(&format!("{label}:\n")); line += 1; nlabel += 1; }
             let mut model = model_call(host, &sigs[case.sig], args, offset, &mut furi);
-            if corrupt && !model.blob.is_empty() { model.blob[0] ^= 1; corrupt = false; }
+            // detection self-tests: 1 = one expected blob byte, 2 = one expected decoded value
+            if corrupt == 1 && !model.blob.is_empty() { model.blob[0] ^= 1; corrupt = 0; }
+            if corrupt == 2 { if let Some(Pr::Int(v, _)) = model.printed.first_mut() { *v += 1; corrupt = 0; } }
             offset += host.header_size() + model.blob.len() as u32;
             let text: Vec<String> = args.iter().map(|a| a.src(&label)).collect();
             source.push_str(&format!("    ins_{}({});\n", opcode, text.join(", ")));
@@ -722,13 +730,14 @@ fn has_pad_before_arg(ps: &[P]) -> bool {
 }
 
 /// Run one group of cases through compile -> (walk, compare) -> decompile -> compare -> recompile.
-pub fn check_group(host: Host, sigs: &[Vec<P>], cases: &[Case], idxs: Vec<usize>, acc: &mut Acc, corrupt: bool) {
+pub fn check_group(host: Host, sigs: &[Vec<P>], cases: &[Case], idxs: Vec<usize>, acc: &mut Acc, corrupt: u8) {
     let tool = host.tool();
     let mut live = idxs;
+    acc.ctx = host.name().into();
     let split = |live: &[usize], acc: &mut Acc| {
         let (l, r) = live.split_at(live.len() / 2);
-        check_group(host, sigs, cases, l.to_vec(), acc, false);
-        check_group(host, sigs, cases, r.to_vec(), acc, false);
+        check_group(host, sigs, cases, l.to_vec(), acc, 0);
+        check_group(host, sigs, cases, r.to_vec(), acc, 0);
     };
     // ---- phase 1: compile; cases whose line carries an error are judged and removed
     let (built, bytes, cdiag) = loop {
@@ -804,7 +813,7 @@ pub fn check_group(host: Host, sigs: &[Vec<P>], cases: &[Case], idxs: Vec<usize>
     // ---- phase 2: bytes + mask vs M7
     let n_cases = live.len();
     let single = n_cases == 1;
-    let mut post = Acc::default();
+    let mut post = Acc { ctx: host.name().into(), ..Default::default() };
     let mut verdict: BTreeMap<usize, String> = BTreeMap::new();
     let fail = |post: &mut Acc, verdict: &mut BTreeMap<usize, String>, ci: usize, sig: String, note: Value| {
         verdict.entry(ci).or_insert_with(|| format!("violation:{}", sig.splitn(3, ':').nth(1).unwrap_or("?")));
@@ -856,6 +865,9 @@ pub fn check_group(host: Host, sigs: &[Vec<P>], cases: &[Case], idxs: Vec<usize>
             }
         }
         if !bc.model.needs.is_empty() && has_diag { verdict.entry(bc.case).or_insert("diagnosed-warning".into()); }
+        if bc.model.reinterp && !has_diag && std::env::var("VERIF_C12_STRICT_SIGN").is_ok() {
+            fail(&mut post, &mut verdict, bc.case, "C12:silent-sign-reinterpretation".into(), json!({"call": k, "written_blob": hex(&ins.blob)}));
+        }
         if !exact { skip[k] = true; continue; }
         if ins.blob != bc.model.blob {
             fail(&mut post, &mut verdict, bc.case, format!("C12:bytes:{st}"), json!({"call": k, "expected": hex(&bc.model.blob), "found": hex(&ins.blob)}));
@@ -1102,6 +1114,7 @@ pub fn all_seqs(alpha: &[P], max_len: usize) -> Vec<Vec<P>> {
 /// `items`: (signature text, reason).  One mapfile with all of them; every line must carry an error.
 pub fn check_rejects(host: Host, items: &[(String, &'static str)], acc: &mut Acc) {
     let tool = host.tool();
+    acc.ctx = host.name().into();
     let mut mapfile = String::from(host.mapfile_head());
     let first_line = host.mapfile_head().matches('\n').count() + 1;
     for (k, (t, _)) in items.iter().enumerate() { mapfile.push_str(&format!("{} {}\n", host.opcode_base() as usize + k, t)); }
@@ -1130,6 +1143,107 @@ pub fn check_rejects(host: Host, items: &[(String, &'static str)], acc: &mut Acc
             "load_diag": short(&c.diag), "use_panic": u.panic.as_ref().map(|p| p.text.clone()), "use_diag": short(&u.diag), "use_compiled": u.bytes.is_some() })) });
         acc.outcome("violation:invalid-sig-accepted");
     }
+}
+
+// =============================================================================================
+// Intrinsic binding: operands of sugar must land in the positions the signature dictates
+
+pub struct IKind { pub decl: &'static str, pub ops: Vec<A>, pub letters: &'static str, pub jump: bool, pub stmt: &'static str }
+
+pub fn ikinds() -> Vec<IKind> {
+    vec![
+        IKind { decl: "AssignOp(op=\"=\"; type=\"int\")", ops: vec![A::Reg(20000), A::Int(5)], letters: "SS", jump: false, stmt: "$REG[20000] = 5;" },
+        IKind { decl: "AssignOp(op=\"=\"; type=\"float\")", ops: vec![A::FReg(30000), flt(2.5)], letters: "ff", jump: false, stmt: "%REG[30000] = 2.5;" },
+        IKind { decl: "BinOp(op=\"+\"; type=\"int\")", ops: vec![A::Reg(20000), A::Reg(20001), A::Int(5)], letters: "SSS", jump: false, stmt: "$REG[20000] = $REG[20001] + 5;" },
+        IKind { decl: "BinOp(op=\"-\"; type=\"float\")", ops: vec![A::FReg(30000), A::FReg(30001), flt(2.5)], letters: "fff", jump: false, stmt: "%REG[30000] = %REG[30001] - 2.5;" },
+        IKind { decl: "UnOp(op=\"sin\"; type=\"float\")", ops: vec![A::FReg(30000), A::FReg(30001)], letters: "ff", jump: false, stmt: "%REG[30000] = sin(%REG[30001]);" },
+        IKind { decl: "CondJmp(op=\"==\"; type=\"int\")", ops: vec![A::Reg(20000), A::Int(7)], letters: "SS", jump: true, stmt: "if ($REG[20000] == 7) goto L0{AT};" },
+        IKind { decl: "CountJmp()", ops: vec![A::Reg(20000)], letters: "S", jump: true, stmt: "if (--$REG[20000]) goto L0{AT};" },
+        IKind { decl: "Jmp()", ops: vec![], letters: "", jump: true, stmt: "goto L0{AT};" },
+    ]
+}
+
+/// (kind index, signature, explicit time?) for every arrangement: jump pair `ot` / `to` / `o` at any
+/// operand boundary, then no padding or one `_` / `-` at any position.
+pub fn intrinsic_cases() -> Vec<(usize, Vec<P>, bool)> {
+    let mut out = vec![];
+    for (ki, k) in ikinds().iter().enumerate() {
+        let ops: Vec<P> = k.letters.chars().map(|c| if c == 'f' { P::Float { imm: false } } else { pint(c) }).collect();
+        let mut bases: Vec<Vec<P>> = vec![];
+        if k.jump {
+            for at in 0..=ops.len() { for j in [vec![P::Off, P::Time], vec![P::Time, P::Off], vec![P::Off]] {
+                let mut b = ops[..at].to_vec(); b.extend(j); b.extend(ops[at..].iter().cloned()); bases.push(b);
+            } }
+        } else { bases.push(ops.clone()); }
+        for b in bases {
+            let mut sigs = vec![b.clone()];
+            for at in 0..=b.len() { for pad in [P::Pad4, P::Pad1] {
+                // padding between `o` and `t` makes them non-consecutive: documented as invalid for intrinsics
+                if at > 0 && at < b.len() && matches!(b[at - 1], P::Off | P::Time) && matches!(b[at], P::Off | P::Time) { continue; }
+                let mut x = b.clone(); x.insert(at, pad); sigs.push(x);
+            } }
+            for sg in sigs {
+                out.push((ki, sg.clone(), false));
+                if sg.contains(&P::Time) { out.push((ki, sg, true)); }
+            }
+        }
+    }
+    out
+}
+
+pub fn check_intrinsic(ki: usize, ps: &[P], explicit_time: bool, acc: &mut Acc) {
+    let host = Host::Anm12;
+    let tool = host.tool();
+    acc.ctx = "anm12-intrinsic".into();
+    let k = &ikinds()[ki];
+    let st = sig_text(ps);
+    let mapfile = format!("!anmmap\n!ins_signatures\n2000 {st}\n2100 S\n!ins_intrinsics\n2000 {}\n", k.decl);
+    let stmt = k.stmt.replace("{AT}", if explicit_time { " @ 7" } else { "" });
+    let source = format!("{}    ins_2100(1);\nL0:\n    {}\n}}\n", host.source_head(), stmt);
+    // operands by role, in signature order
+    let mut ops = k.ops.iter();
+    let args: Vec<A> = ps.iter().filter(|p| !p.is_pad()).map(|p| match p {
+        P::Off => A::LabOff,
+        P::Time => if explicit_time { A::Int(7) } else { A::LabTime },
+        _ => ops.next().expect("operand count").clone(),
+    }).collect();
+    let mut furi = None;
+    let model = model_call(host, ps, &args, 12, &mut furi);
+    let det = |note: Value| json!({"host": "anm12", "family": "intrinsic", "kind": ki, "decl": k.decl, "sig": st, "explicit_time": explicit_time, "stmt": stmt, "note": note});
+    let c = drive::compile(tool, source.as_bytes(), &CompileOpts { mapfiles: vec![&mapfile], ..Default::default() });
+    acc.evaluations += 1;
+    let bytes = match (&c.panic, c.bytes) {
+        (Some(p), _) => { acc.failures.push(Failure { signature: p.signature(), detail: det(json!({"stage": "compile", "panic": p.text})) }); acc.outcome("violation:panic"); return; },
+        (None, None) => {
+            acc.failures.push(Failure { signature: format!("C12:intrinsic-binding-rejected:{}", k.decl.split('(').next().unwrap()), detail: det(json!({"diag": short(&c.diag)})) });
+            acc.outcome("violation:intrinsic-binding-rejected"); return;
+        },
+        (None, Some(b)) => b,
+    };
+    acc.traces += 1;
+    let found = walk(host, &bytes).ok().filter(|i| i.len() == 2).map(|i| i[1].clone());
+    let ok = matches!(&found, Some(i) if i.opcode == 2000 && i.blob == model.blob && i.mask == model.mask);
+    if !ok {
+        acc.failures.push(Failure { signature: format!("C12:intrinsic-operands:{}:{st}", k.decl.split('(').next().unwrap()),
+            detail: det(json!({"expected_blob": hex(&model.blob), "expected_mask": model.mask, "found": format!("{found:?}"), "diag": short(&c.diag)})) });
+        acc.outcome("violation:intrinsic-operands"); return;
+    }
+    let d = drive::decompile(tool, &bytes, &DecompOpts { width: 1_000_000, mapfiles: vec![&mapfile], ..Default::default() });
+    acc.evaluations += 1;
+    let text = match (&d.panic, d.text) {
+        (Some(p), _) => { acc.failures.push(Failure { signature: p.signature(), detail: det(json!({"stage": "decompile", "panic": p.text})) }); acc.outcome("violation:panic"); return; },
+        (None, None) => { acc.failures.push(Failure { signature: format!("C12:decompile-failed:intrinsic:{st}"), detail: det(json!({"diag": short(&d.diag)})) }); acc.outcome("violation:decompile-failed"); return; },
+        (None, Some(t)) => t,
+    };
+    let r = drive::compile(tool, text.as_bytes(), &CompileOpts { mapfiles: vec![&mapfile], ..Default::default() });
+    acc.evaluations += 1;
+    acc.traces += 1;
+    if let Some(p) = &r.panic { acc.failures.push(Failure { signature: p.signature(), detail: det(json!({"stage": "recompile", "panic": p.text, "text": short(&text)})) }); acc.outcome("violation:panic"); return; }
+    if r.bytes.as_deref() != Some(&bytes[..]) {
+        acc.failures.push(Failure { signature: format!("C12:recompile:intrinsic:{st}"), detail: det(json!({"text": text.lines().rev().take(8).collect::<Vec<_>>(), "diag": short(&r.diag)})) });
+        acc.outcome("violation:recompile"); return;
+    }
+    acc.outcome("ok-intrinsic");
 }
 
 // =============================================================================================
@@ -1187,7 +1301,7 @@ fn plan_anm(thorough: bool) -> Plan {
     if thorough { for v in &vars { for w in &vars { add_sig(&mut plan, &mut seen, vec![v.clone(), w.clone()], "attr", Depth::Full, &mut g, cap); } } }
     // malformed attribute combinations (must be rejected)
     for (t, why) in [("z", "string-without-size"), ("m(bs=4)", "m-without-mask"), ("p(len=4)", "p-with-len"), ("z(bs=4;len=4)", "bs-and-len"),
-        ("S(arg0)", "arg0-dword"), ("s(arg0)", "arg0-outside-timeline"), ("Ss(arg0)", "arg0-not-first"), ("Q", "unknown-letter"), ("S(", "unclosed-attrs"),
+        ("S(arg0)", "arg0-dword"), ("s(arg0)", "arg0-outside-timeline"), ("Ss(arg0)", "arg0-not-first"), ("Q", "unknown-letter"), ("S(enum=\"foo\")", "unknown-enum"), ("S(", "unclosed-attrs"),
         ("z(bs=0)", "bs-zero"), ("m(bs=0;mask=0,0,0)", "bs-zero"), ("p(bs=0)", "bs-zero"), ("Sz(bs=0)", "bs-zero")] {
         if seen.insert(t.to_string()) { plan.rejects.push((t.to_string(), why)); }
     }
@@ -1256,12 +1370,12 @@ fn plan_tl(_thorough: bool) -> Plan {
     plan
 }
 
-enum Work { Group(usize, usize), Rejects(usize, usize, usize) }
+enum Work { Group(usize, usize), Rejects(usize, usize, usize), Intrinsic(usize) }
 
 pub fn run(tier: &str) -> Report {
     let mut rep = Report::new("C12", tier, "model_checking");
     let thorough = rep.is_thorough();
-    let corrupt = std::env::var("VERIF_C12_SELFTEST_CORRUPT").map(|v| v == "1").unwrap_or(false);
+    let corrupt: u8 = std::env::var("VERIF_C12_SELFTEST_CORRUPT").ok().and_then(|v| v.parse().ok()).unwrap_or(0);
     let only = std::env::var("VERIF_C12_FAMILY").ok();
     let t0 = std::time::Instant::now();
     let plans = vec![plan_anm(thorough), plan_msg(thorough), plan_tl(thorough)];
@@ -1275,6 +1389,8 @@ pub fn run(tier: &str) -> Report {
         let mut k = 0;
         while k < p.rejects.len() { let e = (k + 32).min(p.rejects.len()); work.push(Work::Rejects(pi, k, e)); k = e; }
     }
+    let icases = intrinsic_cases();
+    if only.is_none() || only.as_deref() == Some("intrinsic") { for i in 0..icases.len() { work.push(Work::Intrinsic(i)); } }
     let t_plan = t0.elapsed().as_secs_f64();
     let deadline = rep.deadline() - std::time::Duration::from_secs(if thorough { 150 } else { 50 });
     let results = par_map(&work, Some(deadline), |wi, w| {
@@ -1291,7 +1407,13 @@ pub fn run(tier: &str) -> Report {
                     let e = acc.families.entry(format!("{}/{}", p.host.name(), c.family)).or_insert((0, 0));
                     e.1 += 1; if seen_sig.insert(c.sig) { e.0 += 1; }
                 }
-                check_group(p.host, &p.sigs, &cases, (0..cases.len()).collect(), &mut acc, corrupt && wi == 0);
+                check_group(p.host, &p.sigs, &cases, (0..cases.len()).collect(), &mut acc, if wi == 0 { corrupt } else { 0 });
+            },
+            Work::Intrinsic(i) => {
+                let (ki, ps, et) = &icases[i];
+                acc.planned += 1; acc.nontrivial += 1;
+                let e = acc.families.entry("anm12/intrinsic".into()).or_insert((0, 0)); e.0 += 1; e.1 += 1;
+                check_intrinsic(*ki, ps, *et, &mut acc);
             },
             Work::Rejects(pi, a, b) => { let p = &plans[pi]; acc.planned += (b - a) as u64; acc.nontrivial += (b - a) as u64; check_rejects(p.host, &p.rejects[a..b], &mut acc); },
         }
@@ -1318,13 +1440,14 @@ pub fn run(tier: &str) -> Report {
     rep.bound_completed = format!(
         "ANM th12 user mapfile: all signatures of length <= {} over the 17-letter alphabet {{S s U u C c b f _ - n N E o t z(bs=4) m(bs=4;mask=0x77,7,16)}} (invalid ones must be rejected); \
          {} attribute variants alone / before / after 7 context letters{}; length-16 all-S signatures with 1 position over the 16 other letters and 2 positions over {}; 17/18/20(+padding) parameters; \
-         MSG th08 string signatures; TH06 timeline arg0 signatures.  Argument lists: default list, every single boundary-value deviation, registers at 1 and 2 positions{}",
+         MSG th08 string signatures; TH06 timeline arg0 signatures; 8 intrinsic kinds bound to every arrangement of their operands with ot/to/o at any boundary and one padding at any position.  Argument lists: default list, every single boundary-value deviation, registers at 1 and 2 positions{}",
         if thorough { 4 } else { 3 }, attr_variants().len(), if thorough { " (+ triples and pairs of variants)" } else { "" },
         if thorough { "the 16 other letters" } else { "{_ - s f} (position pairs adjacent or touching an end)" }, if thorough { ", value deviation x register elsewhere (length <= 3 and attribute family)" } else { "" });
     rep.extra.insert("signatures_valid".into(), json!(n_sigs));
     rep.extra.insert("signatures_rejected_expected".into(), json!(n_rejects));
     rep.extra.insert("families".into(), json!(total.families.iter().map(|(k, v)| json!({"family": k, "signatures": v.0, "cases": v.1})).collect::<Vec<_>>()));
     rep.extra.insert("notes".into(), json!(total.notes));
+    rep.extra.insert("outcomes_by_host".into(), json!(total.by_ctx));
     rep.extra.insert("plan_seconds".into(), json!(t_plan));
     for p in &plans { if !p.groups.is_empty() { let cs = p.cases_of_group(p.groups.len() / 2); for ci in [0usize, cs.len() / 2, cs.len().saturating_sub(1)] { if let Some(c) = cs.get(ci) { rep.sample(detail(p.host, &p.sigs, c, json!(null))); } } } }
     rep.assumptions = vec![
@@ -1340,14 +1463,17 @@ pub fn replay(d: &Value) -> i32 {
     let host = match d["host"].as_str().and_then(Host::from_name) { Some(h) => h, None => { eprintln!("replay: bad host"); return 2 } };
     let sig = d["sig"].as_str().unwrap_or("");
     let mut acc = Acc::default();
-    if d["family"] == "sig-reject" {
+    if d["family"] == "intrinsic" {
+        let ps = match parse_sig(sig) { Some(p) => p, None => { eprintln!("replay: cannot parse signature {sig:?}"); return 2 } };
+        check_intrinsic(d["kind"].as_u64().unwrap_or(0) as usize, &ps, d["explicit_time"].as_bool().unwrap_or(false), &mut acc);
+    } else if d["family"] == "sig-reject" {
         let reason: &'static str = Box::leak(d["reason"].as_str().unwrap_or("?").to_string().into_boxed_str());
         check_rejects(host, &[(sig.to_string(), reason)], &mut acc);
     } else {
         let ps = match parse_sig(sig) { Some(p) => p, None => { eprintln!("replay: cannot parse signature {sig:?}"); return 2 } };
         let calls: Option<Vec<Vec<A>>> = d["calls"].as_array().map(|cs| cs.iter().map(|c| c.as_array().map(|a| a.iter().filter_map(A::from_json).collect()).unwrap_or_default()).collect());
         let case = Case { sig: 0, calls: calls.unwrap_or_default(), family: "replay" };
-        let b = build(host, &[ps.clone()], &[case.clone()], &[0], false);
+        let b = build(host, &[ps.clone()], &[case.clone()], &[0], 0);
         println!("--- mapfile\n{}--- source\n{}", b.mapfile, b.source);
         for bc in &b.calls { println!("--- model: blob [{}] mask {:#x} arg0 {:?} needs {:?} error {:?} printed {:?}", hex(&bc.model.blob), bc.model.mask, bc.model.extra, bc.model.needs, bc.model.error, bc.model.printed); }
         let c = drive::compile(host.tool(), b.source.as_bytes(), &CompileOpts { mapfiles: vec![&b.mapfile], ..Default::default() });
@@ -1358,7 +1484,7 @@ pub fn replay(d: &Value) -> i32 {
             if let Some(t) = &dd.text { for l in t.lines().filter(|l| l.trim_start().starts_with("ins_")) { println!("--- decompiled: {}", l.trim()); } }
             if !dd.diag.trim().is_empty() { println!("--- decompile diag:\n{}", short(&dd.diag)); }
         }
-        check_group(host, &[ps], &[case], vec![0], &mut acc, false);
+        check_group(host, &[ps], &[case], vec![0], &mut acc, 0);
     }
     println!("--- outcomes: {:?}", acc.outcomes);
     for f in &acc.failures { println!("FAIL {}  {}", f.signature, f.detail["note"]); }
